@@ -9,6 +9,7 @@ from ..r_alias import rule_no_mutation_of_cached, rule_no_stale_alias, rule_merg
 from ..r_keys import rule_fresh_keys
 from ..r_hygiene import rule_hygiene as _rule_hygiene
 from ..r_rings import rule_tentative_rollback as _rule_rollback
+from ..r_construct import rule_protocol_dunders as _rule_dunders
 
 LEVEL = 'other'
 
@@ -39,3 +40,4 @@ def run(ck, repo):
     rule_fresh_keys(ck, repo, 'B8-fresh-atom-numbers')
     _rule_hygiene(ck, repo, 'C13.H-dataflow-hygiene', 'C13')
     _rule_rollback(ck, repo, 'C13.D4-tentative-rollback', ['chython.algorithms.standardize.resonance:Resonance.fix_resonance'])
+    _rule_dunders(ck, repo, 'C13.D0-container-protocols', ['chython.containers.molecule:MoleculeContainer'])
